@@ -19,7 +19,7 @@ checker (lang/check/type.go) guarantees before the bounds checker runs -/
 def wtS (Γ : Ctx) : FStmt → Prop
   | .skip => True
   | .seq a b => wtS Γ a ∧ wtS Γ b
-  | .base s => wtStmt Γ s
+  | .base s => wtStmtA Γ s
   | .assert c r => CondOK Γ c ∧ ReasonOK Γ r
   | .ite c t e => CondOK Γ c ∧ wtS Γ t ∧ wtS Γ e
   | .while sp c body => (∀ a ∈ sp, CondOK Γ a.2) ∧ CondOK Γ c ∧ wtS Γ body
@@ -283,7 +283,7 @@ theorem exec_sound {Γ : Ctx} :
     intro loops fs fs1 env o hw _ hc S hx
     cases hx
     simp only [checkS] at hc
-    exact (stmt_sound S hw hc).2
+    exact (stmtA_sound S hw hc).2
   | assert c r =>
     intro loops fs fs1 env o hw _ hc S hx
     cases hx
